@@ -8,7 +8,6 @@ import (
 
 	"github.com/meshplus/bitxhub-model/constant"
 	"github.com/meshplus/bitxhub-model/pb"
-	"github.com/meshplus/bitxhub/internal/executor/contracts"
 	"github.com/meshplus/bitxhub/pkg/vm"
 	"github.com/meshplus/bitxhub/pkg/vm/boltvm"
 	zz "github.com/meshplus/bitxhub/internal/zzverif"
@@ -42,15 +41,6 @@ func zzTMInvoke(exec *BlockExecutor, height uint64, method string, args ...*pb.A
 	return ret, err
 }
 
-func zzRecordOf(exec *BlockExecutor, id string) (pb.TransactionRecord, bool) {
-	var r pb.TransactionRecord
-	ok, v := exec.ledger.GetState(constant.TransactionMgrContractAddr.Address(), []byte(contracts.TxInfoKey(id)))
-	if !ok {
-		return r, false
-	}
-	err := r.Unmarshal(v)
-	return r, err == nil
-}
 
 func zzListHas(exec *BlockExecutor, height uint64, id string) bool {
 	for _, x := range exec.getTimeoutList(height) {
